@@ -614,7 +614,7 @@ impl TypedScenario for C07Raw {
     }
     fn budget(&self, tier: Tier) -> usize {
         match tier {
-            Tier::Quick => 3000,
+            Tier::Quick => 8000,
             Tier::Thorough => 1_000_000,
         }
     }
